@@ -97,6 +97,29 @@ func gen(t *rapid.T) Case {
 	for _, p := range c.Pool {
 		parsed = append(parsed, pat.MustParse(p, cfg.Icpt))
 	}
+	// a pattern that dies while a longer pattern keeps its node in the tree: registered, extended,
+	// then emptied method by method (which leaves different internal state than Remove(pattern))
+	var pairs [][2]string
+	for _, p := range parsed {
+		for _, q := range c.Pool {
+			if p.NParams() > 0 && len(q) > len(p.Src) && strings.HasPrefix(q, p.Src) {
+				pairs = append(pairs, [2]string{p.Src, q})
+			}
+		}
+	}
+	if len(pairs) > 0 && rapid.IntRange(0, 2).Draw(t, "deadWithExtension") == 0 {
+		pq := rapid.SampledFrom(pairs).Draw(t, "deadPair")
+		c.Ops = append(c.Ops,
+			life.Op{Kind: "remove", Pattern: pq[0]}, life.Op{Kind: "remove", Pattern: pq[1]},
+			life.Op{Kind: "handle", Pattern: pq[0], Methods: []string{"GET"}},
+			life.Op{Kind: "handle", Pattern: pq[1], Methods: []string{"GET"}})
+		if rapid.Bool().Draw(t, "deadByMethods") {
+			c.Ops = append(c.Ops, life.Op{Kind: "removeMethods", Pattern: pq[0], Methods: []string{"GET"}})
+		} else {
+			c.Ops = append(c.Ops, life.Op{Kind: "remove", Pattern: pq[0]})
+		}
+		dead = append(dead, pat.MustParse(pq[0], cfg.Icpt), pat.MustParse(pq[0], cfg.Icpt))
+	}
 	reserved := []string{"HEAD", "OPTIONS"}
 	if c.Trace {
 		reserved = append(reserved, "TRACE")
